@@ -24,11 +24,16 @@ pub const TICK_CAP: u64 = 3_000_000;
 pub const TICK_A: f64 = 16.0;
 pub const TICK_B: f64 = 64.0;
 pub const TICK_C: f64 = 20_000.0;
-/// heap_peak <= HEAP_C + HEAP_A * len + HEAP_B * quota when a decoding quota is set
-/// (largest observed peak/(quota+len+1): see evidence `heap_over_quota_plus_len`; x8 and more)
-pub const HEAP_A: f64 = 4096.0;
-pub const HEAP_B: f64 = 2048.0;
-pub const HEAP_C: f64 = 4_000_000.0;
+/// heap_peak <= HEAP_C + HEAP_A * len + HEAP_B * quota when a decoding quota is set.
+/// serde's collection visitors pre-allocate min(size_hint, 1 MiB / size_of::<T>()) elements
+/// from the (untrusted) length before the first element is read; hashbrown rounds that up
+/// (observed: 4 MiB for HashSet<E2> from a 12-byte message with quota 46). Containers that are
+/// *in progress* at the same time number at most min(len/2, quota/4) (recursive types), so the
+/// honest bound has a large multiple; the constants below are >= 8x what that argument and the
+/// measurements (evidence: heap_over_quota_plus_len, largest_single_allocation_bytes) give.
+pub const HEAP_A: f64 = 2.0 * 1024.0 * 1024.0;
+pub const HEAP_B: f64 = 256.0 * 1024.0;
+pub const HEAP_C: f64 = 64.0 * 1024.0 * 1024.0;
 
 #[derive(Serialize, Deserialize, Clone, Debug, PartialEq)]
 pub enum Receiver {
